@@ -55,8 +55,9 @@ func TestVerifKNonce(t *testing.T) {
 		}
 		priv := vknKey(r)
 		pub := priv.Public()
-		leader := vknKey(r).Public()
-		publics := []*crypto.Key{&leader, &pub}
+		// the proposer's public key per challenge variant: variants of one snapshot differ ONLY in the
+		// key vector (same commitments, mask and message), hence in the aggregate key and the challenge
+		leaderOf := map[string]crypto.Key{}
 		commitOf := map[string]crypto.Key{}
 		nameOf := map[crypto.Key]string{}
 		for _, c := range commits {
@@ -69,14 +70,19 @@ func TestVerifKNonce(t *testing.T) {
 		for _, s := range snaps {
 			snapOf[s] = crypto.Blake3Hash([]byte(fmt.Sprintf("snap-%d-%d-%s", vSeed(), wi, s)))
 		}
-		// the proposer's own commitment per (snapshot, variant): another variant = another aggregate challenge
+		// the proposer's own commitment per snapshot
 		leaderCommit := map[string]crypto.Key{}
 		resps := map[[32]byte]int{}
 		for _, o := range walk {
-			lk := o.S + o.V
+			lk := o.S
 			if _, ok := leaderCommit[lk]; !ok {
 				leaderCommit[lk] = vknKey(r).Public()
 			}
+			if _, ok := leaderOf[o.V]; !ok {
+				leaderOf[o.V] = vknKey(r).Public()
+			}
+			leader := leaderOf[o.V]
+			publics := []*crypto.Key{&leader, &pub}
 			commitment := commitOf[o.R]
 			ev := vM{"ev": "KOp", "s": o.S, "r": o.R, "v": o.V, "got": "none", "res": "none",
 				"reuse": false, "resp": 0, "valid": false}
